@@ -177,6 +177,24 @@ def inv_term(buf, bl, bp, rem, rf):
     return And(bl == Len(buf), 0 <= bp, bp <= bl, rem >= 0, 0 <= rf.pos, rf.pos <= Len(rf.src))
 
 
+def coupled_term(st, buf, bl, bp, rem, rf, c):
+    """The state is the flat cursor over V0 at offset c:  the look-ahead window is V0[c : c+nB], the source cursor
+    stands right behind it, and the budget is what is left of the declared length (or 0 once the end of the
+    source has been seen).  Implies  V(state) == V0[c:]  (lemma `coupled_implies_view`)."""
+    nB = bl - bp
+    pos = rf.pos
+    return And(
+        bl == Len(buf), 0 <= bp, bp <= bl, rem >= 0, c >= 0,
+        Sub(buf, bp, nB) == Sub(st.V0, c, nB),
+        pos == c + nB - st.nB, 0 <= pos, pos <= Len(st.src), pos <= st.rem,
+        Or(rem == st.rem - pos, And(rem == 0, pos == Len(st.src))),
+    )
+
+
+def coupled(v, st, c):
+    return coupled_term(st, *fields(v, st.s), c)
+
+
 def frame_buffer(v, st):
     buf, bl, bp, rem, rf = fields(v, st.s)
     return And(buf == st.buf, bl == Len(st.buf), bp == st.bp)
@@ -441,9 +459,9 @@ def _ru_setup(strong):
             S = Sub(rf.src, rf.pos, s._max_bytes_remaining)
             have = L['have_bytes']
             base = And(
-                inv_term(s._buffer, s._buffer_len, s._buffer_pos, s._max_bytes_remaining, rf),
                 have == Len(J),
-                J + B + S == rf.V0,                      # backlog ++ view == the view at entry: nothing lost, nothing duplicated
+                J == Sub(rf.st.V0, 0, have),            # the backlog is what was consumed so far ...
+                coupled_term(rf.st, s._buffer, s._buffer_len, s._buffer_pos, s._max_bytes_remaining, rf, have),  # ... and the reader stands right behind it
                 have <= L['size'],
             )
             if not strong:
@@ -484,7 +502,7 @@ def post_read_until(v, st, out, delim, size, consume, strong):
     c = dl if consume else 0
     v.check('returns-the-next-bytes-of-the-view', ret == Sub(st.V0, 0, n))
     v.check('never-more-than-size', n <= size)
-    v.check('view-advances-by-the-returned-bytes-plus-the-consumed-delimiter', view(v, s) == Sub(st.V0, n + c, st.nV))
+    v.check('view-advances-by-the-returned-bytes-plus-the-consumed-delimiter', coupled(v, st, n + c))
     if consume:
         v.check('consumed-bytes-are-the-delimiter', Sub(st.V0, n, dl) == delim)
     check_inv(v, s)
@@ -501,6 +519,7 @@ def _read_until(v, strong):
     v.assume(size <= st.rem + st.nB)
     consume = bool(v.choose(2, 'consume_delimiter'))
     st.rf.V0 = st.V0
+    st.rf.st = st
     st.rf.i0 = Find(st.V0, delim)
     out = v.call(st.s, delim, size, consume)
     post_read_until(v, st, out, delim, size, consume, strong)
